@@ -19,7 +19,21 @@ Five families of cases (chosen per case from the case seed):
         bytes -> LisToHtml.processFile; the HTML must parse.
   svg   SVGWriter primitives with hostile attribute strings and text; the SVG must parse and carry them unchanged.
 
-Run:  /venv/bin/python /verif/standins/c18_xml.py --seed N --cases M   [--only K  to re-run a single case]
+In the xml family the writer is also stopped half way (an exception through nested `with Element` blocks, an exception
+caught just outside one element, or elements opened by hand and never closed): what XmlStream.__exit__ leaves behind must
+be well-formed and must be exactly what had been written.  When one of the file converters raises, whatever it had
+written by then is parsed as well.
+
+Once per invocation the repository's own example files (example_data, RP66V1 files up to 200 kB) go through the same
+generators; their index XML is compared with the in-memory index it was written from.  They are not counted as cases.
+
+Strings made of characters XML can represent must come back unchanged; for strings holding other characters the
+document only has to parse.  Input classes on which the unchanged repository fails are listed in KNOWN_FINDINGS; the
+class membership is decided from the generated input (never from the writer's output), such inputs are still run, and
+only the failure described there is tolerated on them.
+
+Run:  /venv/bin/python /verif/standins/c18_xml.py --seed N --cases M
+      [--only K  re-run case K alone]  [--family xml|dlis|las|lis|svg]  [--no-examples]
 """
 import os
 import sys
@@ -220,7 +234,9 @@ def plan_tree(rnd, depth, bad, non_ascii_names, xhtml, budget, ascii_js=True):
     """A random element: dict(name, attrs, items, how).  items are
     ('t', str) characters(); ('e', element); ('c', str) comment; ('p', target, str) processing instruction;
     ('l', raw, parsed) literal(); ('br', str) charactersWithBr() [XHTML]; ('js', str) writeECMAScript()."""
-    el = dict(name=xml_name(rnd, non_ascii_names), attrs={}, items=[], preserve=rnd.random() < 0.1)
+    el = dict(name=xml_name(rnd, non_ascii_names), attrs={}, items=[], preserve=rnd.random() < 0.1,
+              # an exception raised inside the element after this many items and caught by the caller just outside it
+              local_abort=None)
     for _ in range(rnd.choice([0, 0, 1, 1, 2, 3, 6])):
         el['attrs'][xml_name(rnd, non_ascii_names)] = hostile(rnd, bad)
     n = rnd.choice([0, 1, 1, 2, 3, 4, 6]) if depth > 0 else rnd.choice([0, 0, 1, 2])
@@ -259,10 +275,16 @@ def plan_tree(rnd, depth, bad, non_ascii_names, xhtml, budget, ascii_js=True):
             el['items'].append(('js', s))
         else:
             el['items'].append(('t', ''))
+    if rnd.random() < 0.25:
+        el['local_abort'] = rnd.randint(0, len(el['items']))
     return el
 
 
 class Abort(Exception):
+    pass
+
+
+class LocalAbort(Exception):
     pass
 
 
@@ -292,18 +314,23 @@ class Emitter:
         exp = dict(name=plan['name'], attrs=dict(plan['attrs']), items=[])
         exp_items.append(('e', exp))
         if use_with:
-            with XmlWrite.Element(self.s, plan['name'], plan['attrs'] if plan['attrs'] or self.rnd.random() < 0.5 else None):
-                self.body(plan, exp)
+            try:
+                with XmlWrite.Element(self.s, plan['name'], plan['attrs'] if plan['attrs'] or self.rnd.random() < 0.5 else None):
+                    self.body(plan, exp, plan.get('local_abort'))
+            except LocalAbort:
+                pass                    # Element.__exit__ has closed the element: writing goes on after it
         else:
             self.s.startElement(plan['name'], plan['attrs'])
             self.body(plan, exp)
             if not self.stopped:
                 self.s.endElement(plan['name'])
 
-    def body(self, plan, exp):
+    def body(self, plan, exp, local_abort=None):
         if plan['preserve']:
             self.s.xmlSpacePreserve()
-        for it in plan['items']:
+        for n_item, it in enumerate(plan['items']):
+            if local_abort is not None and n_item == local_abort and not self.stopped:
+                raise LocalAbort()
             if it[0] == 'e':
                 self.element(it[1], exp['items'])
                 if self.stopped:
@@ -336,6 +363,8 @@ class Emitter:
                 # <script type="text/ecmascript">\n//<![CDATA[\n ... \n// ]]>\n</script>
                 exp['items'].append(('e', dict(name='script', attrs={'type': 'text/ecmascript'},
                                                items=[('t', '\n//\n' + it[1] + '\n// \n')])))
+        if local_abort is not None and local_abort >= len(plan['items']) and not self.stopped:
+            raise LocalAbort()
 
 
 INDENT_RE = re.compile(r'\n(  )*\Z')
@@ -408,7 +437,8 @@ def compare_element(exp, el, ns, path, errs):
 
 
 def map_plan_strings(plan, fn):
-    out = dict(name=plan['name'], attrs={k: fn(v) for k, v in plan['attrs'].items()}, items=[], preserve=plan['preserve'])
+    out = dict(name=plan['name'], attrs={k: fn(v) for k, v in plan['attrs'].items()}, items=[], preserve=plan['preserve'],
+               local_abort=plan.get('local_abort'))
     for it in plan['items']:
         if it[0] == 'e':
             out['items'].append(('e', map_plan_strings(it[1], fn)))
@@ -489,7 +519,10 @@ def case_xml(rnd, out, tmpdir, wit):
     wit.update(xhtml=xhtml, enc=enc, mode=mode, stop_after=stop_after, to_path=to_path)
 
     def check(the_plan):
-        data, exp, aborted = run_xml_doc(the_plan, xhtml, enc, mode, stop_after, state, tmpdir, to_path)
+        try:
+            data, exp, aborted = run_xml_doc(the_plan, xhtml, enc, mode, stop_after, state, tmpdir, to_path)
+        except XmlWrite.ExceptionXml as err:
+            return False, b'', 'the writer raised %r on a correct sequence of calls' % err
         if exp is None:
             return None, data, 'nothing written'
         try:
@@ -890,14 +923,24 @@ def rle_expand(el, conv, mul=None):
     return vals
 
 
+def same_text(got, want):
+    """A string made of characters XML can represent has to come back unchanged; for other strings (which the writer
+    cannot carry) the document only has to be parseable."""
+    return got == want or (got is not None and not representable(want))
+
+
+def same_attrs(got, want):
+    return set(got) == set(want) and all(same_text(got[k], want[k]) for k in want)
+
+
 DTIME_RE = re.compile(r'^(\d+)-(\d\d)-(\d\d) (\d\d):(\d\d):(\d\d)\.(\d\d\d) ?(STD|DST|GMT|)$')
 
 
 def check_value(rc, want, el, path, errs):
     """el is a <Value type= value=/> or <ObjectName O= C= I=/> element."""
     if rc == dl.OBNAME:
-        if el.tag != 'ObjectName' or (el.get('O'), el.get('C'), el.get('I')) != \
-                (str(want[0]), str(want[1]), want[2].decode('latin-1')):
+        if el.tag != 'ObjectName' or not same_attrs(dict(el.attrib), dict(O=str(want[0]), C=str(want[1]),
+                                                                          I=want[2].decode('latin-1'))):
             errs.append('%s: object name %r, written %r' % (path, dict(el.attrib), want))
         return
     if el.tag != 'Value':
@@ -906,7 +949,7 @@ def check_value(rc, want, el, path, errs):
     typ, val = el.get('type'), el.get('value')
     try:
         if rc in (dl.IDENT, dl.ASCII, dl.UNITS):
-            ok = typ == 'bytes' and val == want.decode('latin-1')
+            ok = typ == 'bytes' and same_text(val, want.decode('latin-1'))
         elif rc in (dl.FSINGL, dl.FDOUBL, dl.ISINGL, dl.VSINGL):
             ok = typ == 'float' and float(val) == want
         elif rc == dl.DTIME:
@@ -978,7 +1021,7 @@ def check_index_xml(root, lfs, records, owner, lr_pos, sul, private, path_in, si
                     got[key] = '0x%x' % int(got.get(key, ''), 16)
                 except ValueError:
                     pass
-            need(got == want_attrs, '%s attributes %r, written %r' % (q, got, want_attrs))
+            need(same_attrs(got, want_attrs), '%s attributes %r, written %r' % (q, got, want_attrs))
             xo = list(xe)
             if not (private or t['lr_type'] < 128):      # Appendix A: codes 128..255 are private
                 need(len(xo) == 0, '%s: private table has objects in a public index' % q)
@@ -987,8 +1030,8 @@ def check_index_xml(root, lfs, records, owner, lr_pos, sul, private, path_in, si
                 continue
             for oi, ((name, row), xobj) in enumerate(zip(res, xo)):
                 r = '%s/Object[%d]' % (q, oi)
-                need(xobj.tag == 'Object' and (xobj.get('O'), xobj.get('C'), xobj.get('I')) ==
-                     (str(name[0]), str(name[1]), name[2].decode('latin-1')) and len(xobj.attrib) == 3,
+                need(xobj.tag == 'Object' and same_attrs(dict(xobj.attrib), dict(O=str(name[0]), C=str(name[1]),
+                                                                                    I=name[2].decode('latin-1'))),
                      '%s name %r, written %r' % (r, dict(xobj.attrib), name))
                 xa = list(xobj)
                 if not need(len(xa) == len(row), '%s: %d attributes, template has %d' % (r, len(xa), len(row))):
@@ -1002,7 +1045,7 @@ def check_index_xml(root, lfs, records, owner, lr_pos, sul, private, path_in, si
                     label, count, rc, units, values = a
                     want = dict(label=label.decode('latin-1'), count=str(count), rc=str(rc), rc_ascii=dl.REP_CODE_NAME[rc],
                                 units=units.decode('latin-1'))
-                    need(xat.tag == 'Attribute' and dict(xat.attrib) == want,
+                    need(xat.tag == 'Attribute' and same_attrs(dict(xat.attrib), want),
                          '%s is %r, written %r' % (u, dict(xat.attrib), want))
                     xv = list(xat)
                     values = values or []
@@ -1027,7 +1070,7 @@ def check_index_xml(root, lfs, records, owner, lr_pos, sul, private, path_in, si
             want = dict(O=str(fr['name'][0]), C=str(fr['name'][1]), I=fr['name'][2].decode('latin-1'),
                         description=(fr['description'] or b'').decode('latin-1'),
                         x_axis=chans[0]['name'][2].decode('latin-1'), x_units=(chans[0]['units'] or b'').decode('latin-1'))
-            need(xf.tag == 'FrameArray' and dict(xf.attrib) == want, '%s is %r, written %r' % (q, dict(xf.attrib), want))
+            need(xf.tag == 'FrameArray' and same_attrs(dict(xf.attrib), want), '%s is %r, written %r' % (q, dict(xf.attrib), want))
             sub = list(xf)
             if not need([e.tag for e in sub] == ['Channels', 'IFLR'], '%s children %r' % (q, [e.tag for e in sub])):
                 continue
@@ -1043,7 +1086,7 @@ def check_index_xml(root, lfs, records, owner, lr_pos, sul, private, path_in, si
                     want = dict(O=str(c['name'][0]), C=str(c['name'][1]), I=c['name'][2].decode('latin-1'),
                                 long_name=(c['long_name'] or b'').decode('latin-1'), rep_code=str(c['rc']),
                                 units=(c['units'] or b'').decode('latin-1'), count=str(cnt))
-                    need(xc.tag == 'Channel' and got == want, '%s/Channel[%d] is %r, written %r' % (q, ci, got, want))
+                    need(xc.tag == 'Channel' and same_attrs(got, want), '%s/Channel[%d] is %r, written %r' % (q, ci, got, want))
                     # shape is (frames held in memory, *dimensions): the dimensions are the file's
                     need(shape.split(',')[1:] == [str(d) for d in c['dims']],
                          '%s/Channel[%d] shape %r, dimensions written %r' % (q, ci, shape, c['dims']))
